@@ -40,7 +40,6 @@ check can force coverage of a tag.  ``Vocab`` names the data the templates refer
 log into a ``vlib.common.Recorder``.  ``semantic_mutations`` lists classified AST mutations that
 make a template grammatically ill-formed (must be rejected by every front end).
 """
-import random
 
 # --------------------------------------------------------------------------- references
 
@@ -430,12 +429,13 @@ TREE_VALUED = ('expand', 'leaves', 'header', 'footer', 'branches', 'branches_exp
 
 # --------------------------------------------------------------------------- text alphabets
 # Fragments are literal in ALL three syntaxes even when concatenated with each other or placed
-# next to a tag: no fragment ends in '%', none begins with '(' and none contains '<dtml', '</dtml',
-# '<!--#', '&dtml' or '%('.
+# next to a tag: none contains '<dtml', '</dtml', '<!--#', '&dtml' or '%(' and no concatenation of two
+# fragments does (the only fragment starting with '(' is '(a) ', whose ')' is followed by a blank, so
+# '%' + '(a) ' is not an EPFS tag: a tag needs a format character right after ')').
 TEXT_SAFE = ('alpha', 'beta ', ' gamma', 'Delta', ' ', '  ', '\n', ' \n', '\t\n', '\n\n', '.', ', ',
              ': ', '-', '_', '42', 'café', '中文', 'x=1;', '\r\n')
 TEXT_NEAR = ('<', '< ', '<b>', '</b>', '<br/>', '<!-- c -->', '<!', '<d', '</', '&', '&amp;', '&d ',
-             '&#38;', '100% ', '%% ', ' % ', '%s ', ')', '(a) ', ']', '[', '"', "'", '>', '-->', ';',
+             '&#38;', '100% ', '%% ', ' % ', '%s ', '50%', '%', ')', '(a) ', ']', '[', '"', "'", '>', '-->', ';',
              '#', '=', '<a href="u?x=1&y=2">', '</p>\n', '<p>\n')
 TEXT_MIXED = TEXT_SAFE + TEXT_NEAR
 
